@@ -207,6 +207,8 @@ func evalGen(tier string, r *rng, emit func(string)) {
 		}
 		var fam []string
 		switch {
+		case prop == "C04" && i%4 == 3:
+			fam = famRedef(r)
 		case prop == "C04" && i%2 == 1:
 			fam = famCache(r)
 		case prop == "C05" && i%2 == 1:
@@ -215,6 +217,8 @@ func evalGen(tier string, r *rng, emit func(string)) {
 			fam = famPanic(r)
 		case prop == "C07" && i%3 == 2:
 			fam = famExt(r, extensionNames())
+		case prop == "C01" && i%16 == 9:
+			fam = famRedef(r)
 		case prop == "C01" && i%8 == 1:
 			fam = famCache(r)
 		case prop == "C01" && i%8 == 5:
